@@ -1,5 +1,6 @@
 #pragma once
 #include "plan.h"
+#include <vector>
 
 struct GenOptions {
     std::string profile = "C01";
@@ -8,6 +9,11 @@ struct GenOptions {
     bool allow_null_cb = true;
     bool allow_null_slot = true;
 };
+
+struct SweepConfig { int codec, m; uint32_t k, r, N1, pseed; };
+std::vector<SweepConfig> sweep_configs(const std::string &profile, uint64_t seed);
+uint64_t sweep_total(const std::string &profile, uint64_t seed);
+Plan generate_sweep_plan(uint64_t seed, uint64_t index, const GenOptions &opt);   // index -> (configuration, received subset)
 
 // plan = f(VERIF_SEED, run index, profile) and nothing else
 Plan generate_plan(uint64_t seed, uint64_t run, const GenOptions &opt);
